@@ -401,8 +401,70 @@ def copyseq_group(k):
     return obs, {"paths": n}
 
 
+# --------------------------------------------------------------------------- construction: the values are the values given
+def cov_new_case():
+    """the real Cov.__new__ on a matrix given as nested lists of Python *integers* (np.diag([100, 100, 100, 1, 1, 1]) is as
+    legitimate a covariance as its float twin): the covariance holds the values it was given.  numpy infers an integer dtype
+    for such a sequence (the symbolic integers are int subclasses, so the proxy follows); handing an integer buffer to
+    ndarray.__new__(..., dtype=float) reinterprets its bits, which the shim models by unconstrained values"""
+    from symx.case import Case, Holds
+    from symx.dtmodel import SI
+    from symx import npx
+    ins = [(f"d{i}", "int") for i in range(6)]
+
+    def pre(v):
+        return [v[f"d{i}"] >= 0 for i in range(6)] + [v[f"d{i}"] <= 10 ** 9 for i in range(6)]
+
+    def run(env, v):
+        import importlib
+        import types
+        if env.symbolic:
+            covmod = env.mod("beyond.orbits.cov")
+            proxy = covmod.np
+            counter = itertools.count()
+
+            class NdShim:
+                @staticmethod
+                def __new__(cls, shape, buffer=None, dtype=None, **kw):
+                    obj = np.ndarray.__new__(cls, shape, dtype=object)
+                    if isinstance(buffer, npx.IntObj) and dtype is float:
+                        for i in range(shape[0]):
+                            for j in range(shape[1]):
+                                obj[i, j] = core.var(f"bits_{next(counter)}")      # the bytes of an int64 read as a float64
+                    else:
+                        obj[...] = np.asarray(buffer, dtype=object)
+                    return obj
+            shim = types.SimpleNamespace(array=proxy.array, allclose=lambda a, b: True, ndarray=NdShim)
+            saved = (covmod.np, covmod.get_frame)
+            covmod.np = shim
+            covmod.get_frame = lambda name: name
+            try:
+                orb = types.SimpleNamespace(frame="EME2000", cov=None, copy=lambda **kw: orb)
+                vals = [[SI(v[f"d{i}"]) if i == j else 0 for j in range(6)] for i in range(6)]
+                c = covmod.Cov.__new__(covmod.Cov, orb, vals, "EME2000")
+                return {"diagonal": [getattr(c[i, i], "r", c[i, i]) - v[f"d{i}"] for i in range(6)]}
+            finally:
+                covmod.np, covmod.get_frame = saved
+        from beyond.orbits import StateVector
+        from beyond.orbits.cov import Cov
+        from beyond.dates import Date
+        o = StateVector([7e6, 1e5, -2e5, 100.0, 7.5e3, 500.0], Date(2016, 5, 5, 12), "cartesian", "EME2000")
+        d = [int(v[f"d{i}"]) for i in range(6)]
+        c = Cov(o, [[d[i] if i == j else 0 for j in range(6)] for i in range(6)], "EME2000")
+        c2 = Cov(o, np.diag(d), "EME2000")
+        return {"diagonal": [max(abs(float(c[i, i]) - d[i]), abs(float(c2[i, i]) - d[i])) for i in range(6)]}
+
+    def ref(env, v, out):
+        return {"diagonal": [0] * 6}
+    return Case("construct/integers", ins, run, ref, pre=pre, timeout=60, tol=0, abs_tol=1e-9,
+                extra_points=[{f"d{i}": 100 if i < 3 else 1 for i in range(6)}],
+                desc="Cov(orb, values, frame) with an integer-valued matrix (nested lists of ints, np.diag of ints): the covariance "
+                     "holds the values it was given")
+
+
 def groups(tier):
     g = {"follow": follow_group}
+    g["construct"] = lambda: __import__("symx.case", fromlist=["run_cases"]).run_cases([cov_new_case()])
     for k in range(1, bounds(tier)["sequence_length"] + 1):
         g[f"seq{k}"] = (lambda k=k: run_sequence(k))
     g["copy"] = copy_group
@@ -416,6 +478,9 @@ def replay(ob, model):
     import numpy as np
     from beyond.orbits import StateVector
     from beyond.dates import Date
+    if (ob.get("replay") or {}).get("case", "").startswith("construct"):
+        from symx.case import replay_cases
+        return replay_cases([cov_new_case()], ob, model)
     k = ob["replay"]["k"]
     A = NAMES[int(model.get("A", 0))]
     if k == "follow":
